@@ -3,7 +3,7 @@
 //@ enforce: slist_split
 //@ replace: append
 //@ props: C10 C08
-//@ expect: postcondition>=4 canary=4 loop_invariant_step>=1
+//@ expect: postcondition>=4 canary=4 loop_contract>=3
 #include "_unit.h"
 /* every string of 0..2^20-1 characters, every delimiter */
 void harness(void)
